@@ -89,3 +89,73 @@ package verifier
 //@ requires outcomeWF(outcome)
 //@ ensures[C02.shape] result != nil && fresh(result) && result.Type == trustpolicy.TypeAuthenticity && result.Action == outcome.VerificationLevel.Enforcement[trustpolicy.TypeAuthenticity]
 //@ ensures[C03.anchor] result.Error == nil ==> len(trustCerts) >= 1 && exists(t, 0, len(trustCerts), exists(i, 0, len(chainOf(outcome)), certEqual(trustCerts[t], chainOf(outcome)[i])))
+
+// ---- C01 / C02: helpers of processSignature ----
+
+//@ global invariant errExtendedAttributeNotExist != nil
+//@ global invariant len(VerificationPluginHeaders) == 2 && VerificationPluginHeaders[0] == HeaderVerificationPlugin && VerificationPluginHeaders[1] == HeaderVerificationPluginMinVersion
+
+//@ func isCriticalFailure
+//@ props C02
+//@ requires param(result) != nil
+//@ ensures[C02.critical] result0 == (param(result).Action == trustpolicy.ActionEnforce && param(result).Error != nil)
+
+//@ func logVerificationResult
+//@ props C02
+//@ requires param(result) != nil && logger != nil
+//@ ensures true
+
+//@ func verifyIntegrity
+//@ props C01 C02
+//@ requires outcome != nil && outcome.VerificationLevel != nil
+//@ ensures[C02.shape] result1 != nil && fresh(result1) && result1.Type == trustpolicy.TypeIntegrity && result1.Action == outcome.VerificationLevel.Enforcement[trustpolicy.TypeIntegrity]
+//@ ensures[C01.integrity] result1.Error == nil ==> result != nil && verifiedContent(result, string(sigBlob), envelopeMediaType) && result.Payload.ContentType == envelope.MediaTypePayloadV1 && len(result.SignerInfo.CertificateChain) >= 1 && forall(i, 0, len(result.SignerInfo.CertificateChain), result.SignerInfo.CertificateChain[i] != nil)
+//@ ensures[C01.integrity] result1.Error != nil ==> result == nil
+
+//@ func verifyUserMetadata
+//@ props C01
+//@ requires logger != nil && payload != nil
+//@ ensures[C01.metadata] (result == nil) == forallkeys(k, userMetadata, has(payload.TargetArtifact.Annotations, k) && payload.TargetArtifact.Annotations[k] == userMetadata[k])
+//@ loop 1 invariant forall(k, string, visited(k) ==> has(payload.TargetArtifact.Annotations, k) && payload.TargetArtifact.Annotations[k] == userMetadata[k])
+
+//@ func verifyExpiry
+//@ props C06 C02
+//@ requires outcomeWF(outcome)
+//@ ensures[C02.shape] result != nil && fresh(result) && result.Type == trustpolicy.TypeExpiry && result.Action == outcome.VerificationLevel.Enforcement[trustpolicy.TypeExpiry]
+//@ ensures[C06.expiry] (result.Error == nil) == (timeIsZero(outcome.EnvelopeContent.SignerInfo.SignedAttributes.Expiry) || timeBefore(nowT(), outcome.EnvelopeContent.SignerInfo.SignedAttributes.Expiry))
+
+//@ func extractCriticalStringExtendedAttribute
+//@ props C02
+//@ requires signerInfo != nil
+//@ ensures[C02.ext-attr] result1 == nil ==> exists(i, 0, len(signerInfo.SignedAttributes.ExtendedAttributes), signerInfo.SignedAttributes.ExtendedAttributes[i].Key == box(key) && signerInfo.SignedAttributes.ExtendedAttributes[i].Critical && signerInfo.SignedAttributes.ExtendedAttributes[i].Value == box(result))
+//@ ensures[C02.ext-attr] result1 == errExtendedAttributeNotExist ==> forall(i, 0, len(signerInfo.SignedAttributes.ExtendedAttributes), signerInfo.SignedAttributes.ExtendedAttributes[i].Key != box(key))
+//@ ensures[C02.ext-attr] result1 != errExtendedAttributeNotExist ==> exists(i, 0, len(signerInfo.SignedAttributes.ExtendedAttributes), signerInfo.SignedAttributes.ExtendedAttributes[i].Key == box(key))
+//@ ensures result1 != nil ==> result == ""
+
+//@ func getVerificationPlugin
+//@ props C02 C16
+//@ requires signerInfo != nil
+//@ ensures[C02.plugin-name] result1 == nil ==> result != ""
+//@ ensures[C02.plugin-name] result1 == errExtendedAttributeNotExist ==> forall(i, 0, len(signerInfo.SignedAttributes.ExtendedAttributes), signerInfo.SignedAttributes.ExtendedAttributes[i].Key != box(HeaderVerificationPlugin))
+//@ ensures[C02.plugin-name] result1 != errExtendedAttributeNotExist ==> exists(i, 0, len(signerInfo.SignedAttributes.ExtendedAttributes), signerInfo.SignedAttributes.ExtendedAttributes[i].Key == box(HeaderVerificationPlugin))
+//@ ensures result1 != nil ==> result == ""
+
+//@ func getVerificationPluginMinVersion
+//@ props C02
+//@ requires signerInfo != nil
+//@ ensures[C02.min-version] result1 == nil ==> validSemver(result)
+//@ ensures result1 != nil ==> result == ""
+
+//@ func isRequiredVerificationPluginVer
+//@ props C02
+//@ ensures[C02.version-gate] result == (semverCmp("v" + pluginVer, "v" + minPluginVer) != -1)
+
+//@ func getNonPluginExtendedCriticalAttributes
+//@ props C02
+//@ requires signerInfo != nil
+//@ ensures[C02.non-plugin-attrs] forall(r, 0, len(result), exists(i, 0, len(signerInfo.SignedAttributes.ExtendedAttributes), result[r] == signerInfo.SignedAttributes.ExtendedAttributes[i] && typeis(result[r].Key, string) && result[r].Key.(string) != HeaderVerificationPlugin && result[r].Key.(string) != HeaderVerificationPluginMinVersion))
+//@ ensures[C02.non-plugin-attrs-complete] forall(i, 0, len(signerInfo.SignedAttributes.ExtendedAttributes), typeis(signerInfo.SignedAttributes.ExtendedAttributes[i].Key, string) && signerInfo.SignedAttributes.ExtendedAttributes[i].Key.(string) != HeaderVerificationPlugin && signerInfo.SignedAttributes.ExtendedAttributes[i].Key.(string) != HeaderVerificationPluginMinVersion ==> exists(r, 0, len(result), result[r] == signerInfo.SignedAttributes.ExtendedAttributes[i]))
+//@ ensures len(result) == 0 || fresh(result)
+//@ loop 1 invariant forall(r, 0, len(criticalExtendedAttrs), exists(i, 0, rangeindex+1, criticalExtendedAttrs[r] == signerInfo.SignedAttributes.ExtendedAttributes[i] && typeis(criticalExtendedAttrs[r].Key, string) && criticalExtendedAttrs[r].Key.(string) != HeaderVerificationPlugin && criticalExtendedAttrs[r].Key.(string) != HeaderVerificationPluginMinVersion))
+//@ loop 1 invariant forall(i, 0, rangeindex+1, typeis(signerInfo.SignedAttributes.ExtendedAttributes[i].Key, string) && signerInfo.SignedAttributes.ExtendedAttributes[i].Key.(string) != HeaderVerificationPlugin && signerInfo.SignedAttributes.ExtendedAttributes[i].Key.(string) != HeaderVerificationPluginMinVersion ==> exists(r, 0, len(criticalExtendedAttrs), criticalExtendedAttrs[r] == signerInfo.SignedAttributes.ExtendedAttributes[i]))
+//@ loop 1 invariant newsince(criticalExtendedAttrs) && (len(criticalExtendedAttrs) == 0 || fresh(criticalExtendedAttrs))
